@@ -33,6 +33,9 @@ type Config struct {
 	// the entry continues for at most this long (the verdict is already decided;
 	// the remaining time only collects further labels). Zero: never stop early.
 	StopAfterViolation time.Duration
+	// labels that do not start that clock (recorded findings: the rest of the
+	// space must still be explored)
+	NoStopLabels map[string]bool
 }
 
 func DefaultConfig() Config {
@@ -718,8 +721,13 @@ func (e *Explorer) Explore(entry *ssa.Function) *EntryReport {
 
 func (e *Explorer) merge(pr *PathResult, newWork [][]Decision) {
 	rep := e.rep
-	if len(pr.Violations) > 0 && e.firstViolation.IsZero() {
-		e.firstViolation = time.Now()
+	if e.firstViolation.IsZero() {
+		for _, v := range pr.Violations {
+			if !e.Cfg.NoStopLabels[v.Label] {
+				e.firstViolation = time.Now()
+				break
+			}
+		}
 	}
 	if e.Cfg.StopAfterViolation > 0 && !e.firstViolation.IsZero() && time.Since(e.firstViolation) > e.Cfg.StopAfterViolation && !e.stop {
 		rep.Truncated = true
